@@ -17,9 +17,9 @@ type Case struct {
 	AsPoly bool          `json:"as_polygon,omitempty"` // a single polygon passed as geom.Polygon instead of MultiPolygon
 	// Member k > 0 (kind recv): the receiver is member k-1 of the multi-polygon argument ITSELF (the same value, not a
 	// copy): Outside exactly when one of its vertices is Outside of the whole argument by the even-odd rule
-	Member int `json:"member,omitempty"`
-	Box    bool          `json:"box,omitempty"`        // P is the *Bounds of Polys' first ring's first two vertices
-	Pt     vkit.P2       `json:"pt"`
+	Member int     `json:"member,omitempty"`
+	Box    bool    `json:"box,omitempty"` // P is the *Bounds of Polys' first ring's first two vertices
+	Pt     vkit.P2 `json:"pt"`
 	// ScaleExp: every coordinate of a grid/recv case is multiplied by 2^ScaleExp before it is handed to geom (exact in
 	// binary floating point), while the oracle works on the unscaled grid: classification is scale invariant
 	ScaleExp int      `json:"scale_exp,omitempty"`
